@@ -1,5 +1,5 @@
 //verif:pkg pkg/client
-//verif:kit conn
+//verif:kit conn interleave
 package client
 
 // C18 — send gating across a reconnect: the real runConnection (sends and
